@@ -235,6 +235,10 @@ func (w *World) decoderRows(k *Kind, dfi *FuncInfo) (rows [][5]string, needs []s
 }
 
 func runC04(w *World, r *Report) {
+	r.Rule("tailguard", "a decoder that keeps the rest of its input from some offset admits every input that has a byte there", 1)
+	tailGuardRule(w, r, "tailguard", func(k *Kind) bool { return true })
+	r.Rule("observers", "methods that formatting calls implicitly (String, Error, …) leave the value unchanged", 1)
+	observerRule(w, r, "observers", "openflow13", "common", "protocol", "util")
 	r.Rule("reject", "every error exit of a decoder is behind a short input, a failed child or an unknown code, or is a reviewed rejection by value (spec/rejections.json)", 20)
 	rejectRule(w, r, "reject", func(pkg string) bool { return pkg == "openflow13" || pkg == "common" || pkg == "protocol" })
 	r.Rule("dispatch", "type codes allocate the kind the specification table names", 60)
